@@ -8,7 +8,7 @@ from symx.engine import sceil, sfloor, smin
 ID = "C01"
 MODULES = ["hta.trace_analysis"]
 MUST_NOT_RAISE = True
-BUDGET_S = {"quick": 300, "thorough": 2400}
+BUDGET_S = {"quick": 300, "thorough": 1200}
 BOUNDS = {
     "quick": "1 rank: every word of 1..3 entries over {host op, launch call, kernel, profiler 'Trace' span, metadata, "
              "flow, instant} with >= 1 complete event; 2 ranks: 6 word pairs; integer variant (symbolic Int ts/dur, "
